@@ -267,6 +267,14 @@ theorem ranges_canonical (as bs : List (Nat × Nat)) (ha : NRInv as) (hb : NRInv
   nrinv_ext ha hb h
 
 
+/-- `NRInv` / `NMem` are literally the RangeSet invariant `RInv` / membership `Mem` of
+Model/RangeSet.lean (Props/C14.lean) on the same ranges read as `Int` pairs: so
+`BitSet::iter_ranges` and `IntSet::iter_ranges` (continuous domains) are valid `RangeSet`s -/
+theorem ranges_are_rangesets (rs : List (Nat × Nat)) :
+    (NRInv rs ↔ RangeSet.RInv (toIntRanges rs)) ∧
+    ∀ x : Nat, NMem rs x ↔ RangeSet.Mem (toIntRanges rs) (x : Int) :=
+  ⟨nrinv_iff_rinv rs, nmem_iff_mem rs⟩
+
 /-! ## 4. Observers of `IntSet`, both modes -/
 
 /-- the specification object: `elems` lists exactly the members, strictly ascending -/
